@@ -12,7 +12,17 @@ every path, every row and every argument:
     move the job from a non-terminal to a terminal state (so per job at most once over any history, because terminal is
     absorbing); it touches exactly the ancestors anc*(b, group of the job), adds 1 to n_completed and 1 to exactly one of
     n_succeeded / n_failed / n_cancelled; the stale-attempt path (rc = 2) and the already-complete path write no job/tally row.
+  * fall-back: a rewrite Creating/Running -> Ready (any statement, any writer) happens only when the job's OWN CURRENT attempt
+    (jobs.attempt_id before the rewrite) is one of the attempts the call withdraws - unschedule_job(b, j, a): attempt a of job
+    (b, j); deactivate_instance(i): the attempts placed on instance i; any other procedure: none (oracle `_withdrawn`) - and that
+    attempt is ended in the final database of the same call;
+  * the result row of mark_job_complete says `rc = 0 and old_state not terminal` on exactly the completing paths.
 Precondition terminal(new_state) of mark_job_complete is discharged at the Python call sites (AST obligations).
+Python side (pyvc, `mark_job_complete_py_contract`): the real coroutine driver.job.mark_job_complete calls the procedure exactly
+once with the reported job, attempt and state; its completion effects (batch callback, job-group callbacks, killing the
+job-private instance) happen at most once and only for a row that says this call completed the job - never for a duplicate,
+late (whatever terminal state it carries) or stale report; also on exceptional exits.  Failing Python obligations are replayed
+on the real coroutine (contracts/native/c04_replay.py).
 """
 from __future__ import annotations
 
@@ -23,7 +33,8 @@ import os
 import z3
 
 from contracts import sqlspec as SP
-from vc import core, sqlast as A, sqlvc
+from vc import core, pyvc, sqlast as A, sqlvc
+from vc.pyvc import Contract, Fork, SRecord, to_z3
 from vc.sqlvc import intern
 
 
@@ -42,9 +53,46 @@ def _state_writers(ex):
     return sorted(set(out))
 
 
+# procedures that withdraw attempts -> their time-of-withdrawal parameter (non-NULL at the call sites: C03)
+WITHDRAWS = {'unschedule_job': 'new_end_time', 'deactivate_instance': 'in_timestamp'}
+
+
+def _falls_back(o, n_):
+    return z3.And(SP.is_state(o, 'Creating', 'Running'), SP.is_state(n_, 'Ready'))
+
+
+def _fallback_obligation(ctx, oname, pc, local, goal, aff=None):
+    """pc /\\ [aff] /\\ local => goal.  Most statements can never produce the rewrite at all (a literal new state other than
+    'Ready', a terminal new_state, a Pending child): when `local` alone is contradictory the obligation is stated without the path
+    condition (valid a fortiori, and cheap)"""
+    if not sqlvc.feasible(local, 1000):
+        ctx.add(core.valid(oname, list(local), goal))
+    else:
+        SP.add_valid(ctx, oname, list(pc), ([aff] if aff is not None else []) + list(local), goal)
+
+
+def _withdrawn(name, vars_, base, jobkey, att):
+    """ORACLE (from the meaning of the calls, not from their text): is attempt `att` of job `jobkey` - the job's own current
+    attempt, jobs.attempt_id before the rewrite - one of the attempts that a call of procedure `name` withdraws?
+      unschedule_job(b, j, a, ..)      withdraws exactly attempt a of job (b, j);
+      deactivate_instance(i, ..)       withdraws exactly the attempts placed on instance i (attempts.instance_name = i);
+      every other procedure            withdraws nothing (so it may never move a Creating/Running job back to Ready)."""
+    if name == 'unschedule_job':
+        a = vars_['in_attempt_id']
+        return z3.And(jobkey[0] == vars_['in_batch_id'].v, jobkey[1] == vars_['in_job_id'].v, z3.Not(att.n), z3.Not(a.n), att.v == a.v)
+    if name == 'deactivate_instance':
+        at = base.tab('attempts')
+        akey = list(jobkey) + [att.v]
+        inst = at.get(akey, 'instance_name')
+        i = vars_['in_instance_name']
+        return z3.And(z3.Not(att.n), at.has(akey), z3.Not(inst.n), z3.Not(i.n), inst.v == i.v)
+    return z3.BoolVal(False)
+
+
 def build(ctx):
     ex = SP.proc_exec(inline_after=False)
     writers = _state_writers(ex)
+    row_shapes = set()  # (column names, constant rc or None) of the result rows of PROCEDURE mark_job_complete, read off its paths
     ctx.extra['procedures_assigning_jobs_state'] = writers
     expected = {'schedule_job', 'mark_job_creating', 'mark_job_started', 'unschedule_job', 'deactivate_instance', 'mark_job_complete', 'commit_batch_update'}
     ctx.add(core.decided('closed-world/procedures-assigning-jobs.state', set(writers) <= expected and {'mark_job_complete', 'schedule_job'} <= set(writers), repr(writers), kind='scan'))
@@ -55,11 +103,13 @@ def build(ctx):
         rt = ex.routines[name]
         ctx.under_contract(SP.rel(rt.source_file), 'PROCEDURE ' + name)
         st0 = ex.new_state()
-        for t in ('jobs', 'job_parents', 'job_group_self_and_ancestors', 'job_groups_n_jobs_in_complete_states'):
+        for t in ('jobs', 'job_parents', 'job_group_self_and_ancestors', 'job_groups_n_jobs_in_complete_states', 'attempts'):
             st0.db.tab(t)
         base = st0.db.fork()
         outs = ex.run_procedure(name, st0)
         n_trans = []
+        fallbacks = []
+        said = []
         for pi, s in enumerate(outs):
             pre = []
             if name == 'mark_job_complete':
@@ -78,6 +128,9 @@ def build(ctx):
                     ctx.add(core.valid('%s/path%d/jobs-update%d/terminal-is-absorbing' % (name, pi, ei), hyps + [SP.terminal(o)], sqlvc.sv_eq_values(o, n_)))
                     n_trans.append(z3.And(*hyps, z3.Not(sqlvc.sv_eq_values(o, n_))))
                     to_terminal.append(z3.And(z3.Not(SP.terminal(o)), SP.terminal(n_)))
+                    fb = _falls_back(o, n_)
+                    _fallback_obligation(ctx, '%s/path%d/jobs-update%d/falls-back-to-ready-only-when-its-own-current-attempt-is-the-one-withdrawn' % (name, pi, ei), s.pc[: e.data['pc_len']], pre + [fb], _withdrawn(name, s.vars, base, e.data['key'], e.data['old']['attempt_id']))
+                    fallbacks.append((z3.And(*hyps, fb), e.data['key'], e.data['old']['attempt_id'], s))
                 else:
                     o, n_ = e.data['old_row']['state'], e.data['new_row']['state']
                     aff = e.data['affected']
@@ -91,6 +144,9 @@ def build(ctx):
                         jp = base.tab('job_parents')
                         ctx.add(core.valid('%s/path%d/jobs-update%d/children-statement-touches-children-only' % (name, pi, ei), hyps + [aff], z3.And(kv[0] == s.vars['in_batch_id'].v, jp.has([kv[0], kv[1], s.vars['in_job_id'].v]))))
                     n_trans.append(z3.And(*hyps, aff, z3.Not(sqlvc.sv_eq_values(o, n_))))
+                    fb = _falls_back(o, n_)
+                    _fallback_obligation(ctx, '%s/path%d/jobs-update%d/set-update-falls-back-to-ready-only-when-its-own-current-attempt-is-the-one-withdrawn' % (name, pi, ei), s.pc[: e.data['pc_len']], pre + [fb] + extra, _withdrawn(name, s.vars, base, e.data['kvars'], e.data['old_row']['attempt_id']), aff)
+                    fallbacks.append((z3.And(*hyps, aff, fb, *extra), e.data['kvars'], e.data['old_row']['attempt_id'], s))
                     ctx.add(core.valid('%s/path%d/jobs-update%d/set-update-allowed-transition' % (name, pi, ei), hyps + [aff] + extra, SP.allowed_transition(o, n_)))
                     ctx.add(core.valid('%s/path%d/jobs-update%d/set-update-terminal-is-absorbing' % (name, pi, ei), hyps + [aff, SP.terminal(o)] + extra, sqlvc.sv_eq_values(o, n_)))
             if name == 'mark_job_complete':
@@ -113,15 +169,189 @@ def build(ctx):
                     ctx.add(core.valid('%s/path%d/tally-outcome-matches-the-new-state' % (name, pi), hyps + [aff], z3.And((d('n_succeeded') == 1) == SP.is_state(ns, 'Success'), (d('n_cancelled') == 1) == SP.is_state(ns, 'Cancelled'), (d('n_failed') == 1) == SP.is_state(ns, 'Failed', 'Error'))))
                 else:
                     ctx.add(core.valid('%s/path%d/no-tally-means-no-transition-to-terminal' % (name, pi), hyps_all, z3.Not(completes)))
+                # what the driver is told: the row answers `rc = 0 and an old_state that is not terminal` on exactly the paths that
+                # completed the job (the Python caller keys its completion effects on that: mark_job_complete_py_contract)
+                res = dict(s.results[-1]) if s.results else {}
+                rc_, old_ = res.get('rc'), res.get('old_state')
+                if s.results:
+                    rcv = z3.simplify(rc_.v) if rc_ is not None and z3.is_false(z3.simplify(rc_.n)) else None
+                    row_shapes.add((tuple(c for c, _ in s.results[-1]), rcv.as_long() if rcv is not None and z3.is_int_value(rcv) else None))
+                ctx.add(core.decided('%s/path%d/answers-with-exactly-one-result-row-carrying-rc' % (name, pi), len(s.results) == 1 and rc_ is not None, repr([[c for c, _ in r] for r in s.results]), kind='scan'))
+                if rc_ is not None:
+                    is0 = z3.And(z3.Not(rc_.n), rc_.v == 0)
+                    says = z3.And(is0, z3.Not(SP.terminal(old_))) if old_ is not None else z3.BoolVal(False)
+                    SP.add_valid(ctx, '%s/path%d/result-row-says-completed-exactly-when-this-call-completed-the-job' % (name, pi), hyps_all, [], says == completes)
+                    if old_ is None:  # the driver reads old_state from every rc = 0 row
+                        SP.add_valid(ctx, '%s/path%d/an-rc-0-row-carries-old_state' % (name, pi), hyps_all, [], z3.Not(is0))
+                    said.append(z3.And(*hyps_all, says))
         ctx.add(core.satisfiable('%s/vacuity/some-path-changes-a-state' % name, z3.Or(*n_trans) if n_trans else z3.BoolVal(False)))
+        if name == 'mark_job_complete':
+            ctx.add(core.satisfiable('%s/vacuity/some-path-answers-that-this-call-completed-the-job' % name, z3.Or(*said) if said else z3.BoolVal(False)))
+        if name in WITHDRAWS:
+            # the clause is not vacuous: the withdrawing procedures do reset a job, and then the attempt that justified the reset
+            # is really taken away by the same call (its row is ended in the final database)
+            ctx.add(core.satisfiable('%s/vacuity/some-path-lets-a-job-fall-back-to-ready' % name, z3.Or(*[f[0] for f in fallbacks]) if fallbacks else z3.BoolVal(False)))
+            for fi, (cond, key, att, s) in enumerate(fallbacks):
+                akey = list(key) + [att.v]
+                t_end = s.vars[WITHDRAWS[name]]
+                post = s.db.tab('attempts')
+                # ended = carries a reason or an end time (an attempt that was given a reason without an end time stays so: C03 (d))
+                SP.add_valid(ctx, '%s/fallback%d/the-attempt-whose-withdrawal-resets-the-job-is-ended-by-the-same-call' % (name, fi), [cond], [z3.Not(att.n), base.tab('attempts').has(akey), z3.Not(t_end.n)], z3.Or(z3.Not(post.get(akey, 'end_time').n), z3.Not(post.get(akey, 'reason').n)), dedupe_key=name + '/withdrawn-attempt-ended')
     SP.lock_discipline(ctx, ex, [w for w in writers])
     _call_sites(ctx)
+    _python_side(ctx, row_shapes)
     from contracts import sqlspec as _SP
     _SP.engine_obligations(ctx, ex)
     ctx.assume('each procedure call is atomic (serialisable isolation); MySQL NULL/boolean semantics as encoded in vc/sqlvc.py')
     ctx.assume("invariant N' (a child of a non-terminal parent is Pending) is a hypothesis of the children statement here; its preservation is C05's obligation")
     ctx.assume('"at most once per job over any history" follows from: the tally statement runs only together with a non-terminal -> terminal transition of that job, and terminal states are absorbing (ranking argument)')
     ctx.undecided('worker-side message generation; uniqueness of attempt ids')
+
+
+JOB_PY = 'batch/batch/driver/job.py'
+
+
+def _imported_constants(path, tree):
+    """names that `path` imports with `from <relative module> import NAME`, resolved to the module-level constants of the REAL
+    imported module (re-read on every run): e.g. job.py's complete_states is batch/batch/globals.py's tuple"""
+    out = {}
+    base = os.path.dirname(path)
+    for n in tree.body:
+        if isinstance(n, pyast.ImportFrom) and n.level >= 1 and n.module:
+            d = base
+            for _ in range(n.level - 1):
+                d = os.path.dirname(d)
+            cand = os.path.join(d, *n.module.split('.')) + '.py'
+            if not os.path.exists(os.path.join(core.REPO, cand)):
+                continue
+            consts = pyvc.module_constants(pyast.parse(core.read_repo(cand)))
+            for a in n.names:
+                if a.name in consts and isinstance(consts[a.name], (tuple, str, int, frozenset)):
+                    out[a.asname or a.name] = consts[a.name]
+    return out
+
+
+def mark_job_complete_py_contract(row_shapes):
+    """driver.job.mark_job_complete (the real coroutine): the stored procedure is called exactly once with the caller's
+    new_state; the row it answers with decides everything else.  The COMPLETION EFFECTS - the batch callback, the job-group
+    callbacks and killing the job-private instance - happen only for the one report that moved the job into its terminal state
+    (rc = 0 and an old_state that is not terminal: exactly the paths of the procedure that run the tally statement, see
+    `result-row-says-completed-exactly-when-this-call-completed-the-job`), each at most once; a duplicate, late (already
+    complete, whatever terminal state the late report carries) or stale-attempt (rc = 2) report triggers none of them."""
+    src = core.read_repo(JOB_PY)
+    tree = pyast.parse(src)
+
+    def fetchone(eng, st, args, kw, node):
+        sql = args[1] if len(args) > 1 else None
+        if not (isinstance(sql, str) and sql.strip().upper().startswith('CALL MARK_JOB_COMPLETE')):
+            raise core.Undecided('unrecognised statement in driver.job.mark_job_complete: %r' % (sql,))
+        vals = args[2] if len(args) > 2 else None
+        proc_params = [p_.name for p_ in SP.proc_exec().routines['mark_job_complete'].params]
+        if not isinstance(vals, tuple) or len(vals) != len(proc_params) or sql.count('%s') != len(proc_params):
+            raise core.Undecided('CALL mark_job_complete arguments do not match the parameters of the procedure')
+        eng.oblige(st, 'the-procedure-is-called-before-any-completion-effect', z3.And(st.env['n_batch_callbacks'] == 0, st.env['n_group_callbacks'] == 0, st.env['n_kills'] == 0))
+        st.env['n_db_calls'] = st.env['n_db_calls'] + 1
+        sent = dict(zip(proc_params, vals))
+        for k in ('in_batch_id', 'in_job_id', 'in_attempt_id', 'new_state'):
+            st.env['sent_' + k] = to_z3(sent[k], 'U')
+        # one alternative per kind of result row of the REAL procedure (columns and rc as selected on its paths): the columns the
+        # coroutine may read are exactly those the procedure selects
+        rc = z3.Int('db_rc')
+        alts = []
+        # (columns whose name occurs nowhere in the coroutine as a string literal cannot be read by it: rows that differ only
+        # in such columns are one alternative; a computed key makes the subscript undecided in the executor)
+        fn_node = pyvc.find_function(tree, 'mark_job_complete')
+        literals = {n.value for n in pyast.walk(fn_node) if isinstance(n, pyast.Constant) and isinstance(n.value, str)}
+        for cols, rcv in sorted({(tuple(c for c in cols if c in literals or c == 'rc'), rcv) for cols, rcv in row_shapes}, key=repr):
+            if 'rc' not in cols:
+                raise core.Undecided('a result row of PROCEDURE mark_job_complete has no rc column: %r' % (cols,))
+            row = SRecord('row', {c: (rc if c == 'rc' else z3.Const('db_old_state', pyvc.U) if c == 'old_state' else z3.Int('db_delta_cores_mcpu') if c == 'delta_cores_mcpu' else z3.Const(pyvc.fresh_name('db_' + c), pyvc.U)) for c in cols})
+            alts.append(('row(%s)%s' % (','.join(cols), '' if rcv is None else '[rc=%d]' % rcv), rc == rcv if rcv is not None else None, 'value', row, None))
+        if not alts:
+            raise core.Undecided('PROCEDURE mark_job_complete answers with no result row')
+        e = z3.Const(pyvc.fresh_name('db_exc'), pyvc.U)
+        raise Fork(node, alts + [('db-error', None, 'raise', pyvc.SExc(term=e), None)])
+
+    def effect(counter, may_raise=True):
+        def model(eng, st, args, kw, node):
+            st.env[counter] = st.env[counter] + 1
+            if not may_raise:
+                return None
+            e = z3.Const(pyvc.fresh_name('exc_' + counter), pyvc.U)
+            raise Fork(node, [('done', None, 'value', None, None), ('fails', None, 'raise', pyvc.SExc(term=e), None)])
+        return model
+
+    def aar(eng, st, args, kw, node):
+        e = z3.Const(pyvc.fresh_name('aar_exc'), pyvc.U)
+        raise Fork(node, [('resources-recorded', None, 'value', None, None), ('resources-fail', None, 'raise', pyvc.SExc(term=e), None)])
+
+    nop = lambda eng, st, args, kw, node: None  # noqa: E731
+    opaque = lambda name: (lambda eng, st, args, kw, node: z3.Const(pyvc.fresh_name(name), pyvc.U))  # noqa: E731
+    completed = 'db_rc == 0 and not (db_old_state in TERMINAL)'
+    none_unless = 'implies(n_batch_callbacks + n_group_callbacks + n_kills > 0, n_db_calls == 1 and %s)' % completed
+    consts = _imported_constants(JOB_PY, tree)
+    # app[CommonAiohttpAppKeys.CLIENT_SESSION]: an application key object; which key it is does not matter here
+    consts.update({'CommonAiohttpAppKeys': SRecord('AppKeys', {'CLIENT_SESSION': 'CommonAiohttpAppKeys.CLIENT_SESSION'})})
+    consts.update({'TERMINAL': tuple(SP.TERMINAL), 'db_rc': z3.Int('db_rc'), 'db_old_state': z3.Const('db_old_state', pyvc.U)})
+    return Contract(
+        path=JOB_PY,
+        qualname='mark_job_complete',
+        label='driver.job.mark_job_complete',
+        types={'new_state': 'U', 'batch_id': 'U', 'job_id': 'U', 'attempt_id': 'U', 'resources': 'U', 'marked_job_started': 'bool', 'instance_name': 'U',
+               '.state': 'U', '.inst_coll': 'U', '.is_pool': 'bool', '.inst_coll_manager': 'U'},
+        requires=['new_state in TERMINAL'],
+        consts=consts,
+        ghost_init={'n_db_calls': '0', 'n_batch_callbacks': '0', 'n_group_callbacks': '0', 'n_kills': '0'},
+        setup=lambda eng, st: st.env.update({'sent_' + k: z3.Const('nosent_' + k, pyvc.U) for k in ('in_batch_id', 'in_job_id', 'in_attempt_id', 'new_state')}),
+        calls={
+            '.execute_and_fetchone': fetchone, 'notify_batch_job_complete': effect('n_batch_callbacks'), 'notify_job_group_on_job_complete': effect('n_group_callbacks'),
+            '.kill': effect('n_kills', may_raise=False), 'add_attempt_resources': aar, 'time_msecs': lambda eng, st, args, kw, node: z3.Int(pyvc.fresh_name('now')),
+            'json.dumps': opaque('json'), 'log.info': nop, 'log.warning': nop, 'log.exception': nop, 'log.error': nop,
+            '.notify': nop, '.set': nop, '.get_instance': opaque('instance'), '.adjust_free_cores_in_memory': nop, '.ensure_future': nop,
+        },
+        raises={'*': True},  # a failing statement / callback propagates; what must hold then is `on_raise`
+        on_raise=[('no-completion-effect-unless-this-call-completed-the-job', none_unless)],
+        ensures=[
+            ('the-procedure-is-called-exactly-once', 'n_db_calls == 1'),
+            ('the-procedure-is-called-for-the-reported-job-attempt-and-state', 'sent_in_batch_id == batch_id and sent_in_job_id == job_id and sent_in_attempt_id == attempt_id and sent_new_state == new_state'),
+            ('no-completion-effect-unless-this-call-completed-the-job', none_unless),
+            ('each-completion-effect-at-most-once', 'n_batch_callbacks <= 1 and n_group_callbacks <= 1 and n_kills <= 1'),
+        ],
+        canaries=[('no-callback-ever', 'n_batch_callbacks == 0 and n_group_callbacks == 0'), ('no-instance-ever-killed', 'n_kills == 0'), ('every-report-notifies', 'n_batch_callbacks == 1')],
+    )
+
+
+_REPLAY = {}
+
+
+def native_witness(ctx=None):
+    """bounded enumeration of result rows / reports on the REAL driver.job.mark_job_complete (contracts/native/c04_replay.py);
+    confirmed only for an input whose completion effects were observed on the real coroutine"""
+    if 'r' not in _REPLAY:
+        _REPLAY['r'] = core.run_native(open(os.path.join(os.path.dirname(__file__), 'native', 'c04_replay.py')).read(), {})
+    return _REPLAY['r']
+
+
+def sql_row_shapes(ex=None):
+    """(column names, constant rc or None) of every result row the REAL procedure mark_job_complete can answer with"""
+    ex = ex or SP.proc_exec(inline_after=False)
+    shapes = set()
+    for s in ex.run_procedure('mark_job_complete', ex.new_state()):
+        if s.results:
+            rc_ = dict(s.results[-1]).get('rc')
+            rcv = z3.simplify(rc_.v) if rc_ is not None and z3.is_false(z3.simplify(rc_.n)) else None
+            shapes.add((tuple(c for c, _ in s.results[-1]), rcv.as_long() if rcv is not None and z3.is_int_value(rcv) else None))
+    return shapes
+
+
+def _python_side(ctx, row_shapes=None):
+    row_shapes = row_shapes if row_shapes else sql_row_shapes()
+    ctx.extra['mark_job_complete_result_row_shapes'] = sorted(map(repr, row_shapes))
+    eng = pyvc.Engine(ctx, mark_job_complete_py_contract(row_shapes))
+    eng.replayer = lambda model, obl: native_witness()
+    eng.run()
+    ctx.add(core.decided('driver.job.mark_job_complete/no-call-outside-the-contract', not eng.unmodelled, repr(eng.unmodelled), kind='frame'))
+    ctx.assume('db.execute_and_fetchone returns the single result row of the CALL (rc, old_state, delta_cores_mcpu as selected by the procedure) or raises; notify_batch_job_complete / notify_job_group_on_job_complete / Instance.kill are the completion effects (their bodies - callback delivery - are not verified)')
 
 
 def _call_sites(ctx):
